@@ -1267,10 +1267,36 @@ def c06_relations(kind, y=None, w=None, lam=None, c=0, a=0, b=0, kernel=None, re
 
 
 # ------------------------------------------------------------------ C20
-def c20_tinterpolate(name, x, template, labels, mode):
+def c20_tinterpolate(name, x, template, labels, mode, declared=None, stride=2):
     from hdc.algo import ops
     from fractions import Fraction as F
     rng = np.random.default_rng(41)
+    if mode == "strided":
+        # every input as a non-contiguous view of a wider buffer vs the same values in contiguous arrays
+        k = int(stride) if 2 <= int(stride) <= 8 else 2
+        bad = []
+        for tpl, lab in ((template, labels), ([1, 0, 1, 0, 0, 1, 0, 0, 1, 1], [3, 3, 3, 4, 4, 4, 4, 5, 5, 5])):
+            nobs = int(sum(tpl))
+            xv = np.array((list(x) * 4)[:nobs], dtype="int16") + np.arange(nobs, dtype="int16") * 37
+            nrun = len(set(lab))
+            ref = ops.tinterpolate(xv.copy(), np.array(tpl, dtype="float64"), np.array(lab, dtype="int32"), np.zeros(nrun, dtype="uint8"))
+
+            def view(arr, dtype, fill):
+                wide = np.full(len(arr) * k, fill, dtype=dtype)
+                wide[::k] = arr
+                return wide[::k]
+            for which in ("x", "template", "labels", "all"):
+                xa = view(xv, "int16", 9999) if which in ("x", "all") else xv.copy()
+                ta = view(np.array(tpl, dtype="float64"), "float64", 1.0) if which in ("template", "all") else np.array(tpl, dtype="float64")
+                la = view(np.array(lab, dtype="int32"), "int32", 99) if which in ("labels", "all") else np.array(lab, dtype="int32")
+                try:
+                    got = ops.tinterpolate(xa, ta, la, np.zeros(nrun, dtype="uint8"))
+                except Exception as e:  # noqa
+                    bad.append({"strided": which, "raised": f"{type(e).__name__}: {e}"[:160]})
+                    continue
+                if not np.array_equal(got, ref):
+                    bad.append({"strided": which, "got": got.tolist(), "contiguous": ref.tolist()})
+        return {"violates": bool(bad), "bad": bad[:4], "declared": declared}
     template = [int(t) for t in template]
     D = len(template)
     days = [d for d in range(D) if template[d]]
